@@ -469,9 +469,29 @@ def unit_grid(rec: Rec, shard: int, nshards: int, sizes: list) -> None:
     rec.exhaustive = True
 
 
+def unit_huge(rec: Rec, sizes: list) -> None:
+    """Multi-megabyte compressed messages on a reader without a message size limit: whatever a decompression
+    helper does in one step, the message comes back whole and the next one is not disturbed."""
+    for size in sizes:
+        for style in ("zeros", "pattern"):
+            case = {
+                "use_mask": False, "compress": 15, "notakeover": False, "mask_seed": 1,
+                "decode_text": True, "limit": 2 ** 16, "exec_mode": "submit", "exec_delay": 0,
+                "senders": [[{"kind": "binary", "size": size, "style": style},
+                             {"kind": "text", "size": 40, "style": "pattern"}]],
+                "cuts": [size // 3],
+            }
+            try:
+                body(rec, case)
+            except Violation as v:
+                rec.fail(v.key, v.msg, case)
+    rec.exhaustive = True
+
+
 def units(tier: str, seed: int) -> list[Unit]:
     us = []
     n = 120 if tier == "quick" else 4000
+    us.append(Unit("huge", unit_huge, {"sizes": [2 ** 24 + 1] if tier == "quick" else [2 ** 22 + 1, 2 ** 24 + 1, 2 ** 25 + 3]}))
     for i in range(6):
         us.append(Unit(f"seq{i}", unit_hyp, {"n": n, "offset": i, "concurrent": False}))
     for i in range(4):
